@@ -25,6 +25,11 @@ func vModelAnyUnmarshalNew(x *anypb.Any) (proto.Message, error) {
 	return vReqTable[x.Value[0]], nil
 }
 
+//verif:replace google.golang.org/protobuf/types/known/anypb.UnmarshalNew vModelAnyUnmarshalNewFn
+func vModelAnyUnmarshalNewFn(x *anypb.Any, opts proto.UnmarshalOptions) (proto.Message, error) {
+	return vModelAnyUnmarshalNew(x)
+}
+
 //verif:replace google.golang.org/protobuf/types/known/anypb.New vModelAnyNew
 func vModelAnyNew(m proto.Message) (*anypb.Any, error) {
 	return &anypb.Any{TypeUrl: vReqInfoURL, Value: []byte{9}}, nil
